@@ -107,7 +107,12 @@ impl Pattern {
     fn has_greedy_all(hir: &Hir) -> bool {
         match hir.kind() {
             HirKind::Repetition(repetition) => {
-                let is_dot = DOT_HIRS.contains(&repetition.sub);
+                // `(.)*` repeats a dot just like `.*` does: look through capture groups
+                let mut repeated = &*repetition.sub;
+                while let HirKind::Capture(capture) = repeated.kind() {
+                    repeated = &capture.sub;
+                }
+                let is_dot = DOT_HIRS.contains(repeated);
                 let is_unbounded = repetition.max.is_none();
                 let is_greedy = repetition.greedy;
 
